@@ -22,7 +22,7 @@ from harness import common, l3, pool
 from harness.common import Model
 
 PID = "C03"
-TRANSLATORS = ["T-panic", "T-runtest", "T-copies", "T-refine", "T-dynroom"]
+TRANSLATORS = ["T-panic", "T-runtest", "T-copies", "T-refine", "T-dynroom", "T-arithrw"]
 
 # Genuine defects of halmos w.r.t. C03 shown by this check on the unchanged tree (see final report).
 KNOWN = common.known_for("C03")  # entries live in /verif/known_findings.json
@@ -344,16 +344,17 @@ def gen_l3_tasks(r, tier):
     desc = {"array": [2, 1, 0], "bytes": [65, 33, 0], "by_name": {}}
     mixed = {"array": [0, 1, 2], "bytes": [0, 65, 1024], "by_name": {"a0": [1, 3, 2]}}
     if tier == "quick":
-        plans = [(None, [], [(1, 2, 1), (0, 1, 2)], ["mod", "sdiv", "mul"], L.DEFAULT_LENS, [("array", 1), ("bytes", 1)]),
-                 ("0x01", ["--solver", "z3"], [(1, 1, 0), grid[r.randrange(9)]], ["smod", "div"], desc, [("array", 0), ("bytes", 0), ("bytes", 1)]),
-                 (None, [], [(2, 0, 1)], [], mixed, [("array", 1), ("array", 2), ("bytes", 2)])]
+        plans = [(None, [], [(1, 2, 1), (0, 1, 2)], ["mod", "sdiv", "mul"], L.DEFAULT_LENS, [("array", 1), ("bytes", 1)], [0, 3, 6], [("static", "unnamed"), ("bytes", "unnamed")]),
+                 ("0x01", ["--solver", "z3"], [(1, 1, 0), grid[r.randrange(9)]], ["smod", "div"], desc, [("array", 0), ("bytes", 0), ("bytes", 1)], [], [("array", "same"), ("static", "same")]),
+                 (None, [], [(2, 0, 1)], [], mixed, [("array", 1), ("array", 2), ("bytes", 2)], [1, 4, 2, 7], [("static", "distinct")])]
     else:
         plans = [(L.CODE_OPTIONS[k % len(L.CODE_OPTIONS)], [[], ["--solver", "z3"], ["--storage-layout", "generic"]][k % 3], grid[3 * (k % 3):3 * (k % 3) + 3],
                   ["div", "mod", "sdiv", "smod", "mul", None], [L.DEFAULT_LENS, desc, mixed, {"array": [3, 0, 1], "bytes": [32, 64, 1], "by_name": {"a1": [2, 1]}}][k % 4],
-                  [(a, b) for a in ("array", "bytes") for b in range(3)]) for k in range(9)]
-    for co, extra, combos, ops, lens, picks in plans:
-        d = L.gen_directed_contract(r, co, n_each=2 if tier == "quick" else 4, combos=combos, ops=ops, lens=lens, picks=picks)
-        tasks.append({"desc": d, "options": (["--panic-error-codes", co] if co else []) + extra + L.lens_options(lens) + ["--solver-timeout-assertion", "15s"], "code_opt": co,
+                  [(a, b) for a in ("array", "bytes") for b in range(3)], list(range(8)),
+                  [(kd, nm) for kd in ("static", "array", "bytes") for nm in ("unnamed", "same", "distinct")]) for k in range(9)]
+    for co, extra, combos, ops, lens, picks, idents, twins in plans:
+        d = L.gen_directed_contract(r, co, n_each=2 if tier == "quick" else 4, combos=combos, ops=ops, lens=lens, picks=picks, idents=idents, twins=twins)
+        tasks.append({"desc": d, "options": (["--panic-error-codes", co] if co else []) + extra + L.lens_options(lens) + ["--solver-timeout-assertion", "15s"], "code_opt": co, "lens": lens, "z3_ms": 800, "feas_ms": 1200,   # search aids only; the boundary candidates carry these families
                       "seed": r.getrandbits(32), "family": "directed", "limit": 100 if tier == "quick" else 200, "timeout": 200})
     for d, co, fam in special_contracts():
         for extra in ([], ["--solver", "z3"]) if tier != "quick" else ([],):
@@ -471,7 +472,7 @@ def run(rep, tier):
         trusted_base=common.TRUSTED_BASE_COMMON + ["the fabricated forge artifacts + stub forge (harness/l3.py) and the extracted reference interpreter coq/Spec/Evm.v as EVM oracle"],
         assumptions=ASSUMPTIONS,
         rule="L1 cases = (error kind, revert data as concrete/symbolic segments, code set): every length 0..40 of the Panic(1) encoding, one-bit/one-byte selector damage, 14 codes x 7 code sets, a symbolic segment at every offset, random byte strings; random call trees for is_global_fail_set. "
-             "L3 cases = (test function description, setUp storage, halmos options): tests `if (g) action; ...; STOP` with g from {eq const, lt/gt, add/sub/mul/xor/and/or relations, mul/div/mod/sdiv/smod, shifts, signed compares, bit tests, storage written by setUp, dynamic length guards, element/word guards} over static and dynamic parameters, actions {Panic(k) inside/outside the configured set, 35/37/68-byte near-panics, other selectors, DSTest.fail, revert, INVALID}; options: panic code sets x solver {yices, z3} x storage layout; directed families: a calldata word / array element pinned by `== c` on a benign branch and read again on the sibling branch where the failure needs another value; tests with 2-3 dynamic parameters whose failure needs one combination of their lengths (all 9 index combinations in the thorough tier); a given length together with a given value of the last element / word existing at that length, under length candidates configured as the defaults, as descending lists (--default-array-lengths 2,1,0 --default-bytes-lengths 65,33,0) and as an unsorted per-parameter list (--array-lengths a0={1,3,2}); failures at the special-case points of div / mod / sdiv / smod (zero divisor, MIN / -1) and of a wrapping mul, with symbolic operands; "
+             "L3 cases = (test function description, setUp storage, halmos options): tests `if (g) action; ...; STOP` with g from {eq const, lt/gt, add/sub/mul/xor/and/or relations, mul/div/mod/sdiv/smod, shifts, signed compares, bit tests, storage written by setUp, dynamic length guards, element/word guards} over static and dynamic parameters, actions {Panic(k) inside/outside the configured set, 35/37/68-byte near-panics, other selectors, DSTest.fail, revert, INVALID}; options: panic code sets x solver {yices, z3} x storage layout; directed families: a calldata word / array element pinned by `== c` on a benign branch and read again on the sibling branch where the failure needs another value; tests with 2-3 dynamic parameters whose failure needs one combination of their lengths (all 9 index combinations in the thorough tier); a given length together with a given value of the last element / word existing at that length, under length candidates configured as the defaults, as descending lists (--default-array-lengths 2,1,0 --default-bytes-lengths 65,33,0) and as an unsorted per-parameter list (--array-lengths a0={1,3,2}); `if (!(identity)) fail` for identities of machine arithmetic that fail only at special points ((a*b)/b == a, (a/b)*b + a%b == a, a % b < b, ... on masked and unmasked operands, plus identities that hold everywhere as controls); two parameters of the same type with empty / equal / distinct ABI names whose values, lengths or elements must differ for the failure; failures at the special-case points of div / mod / sdiv / smod (zero divisor, MIN / -1) and of a wrapping mul, with symbolic operands; "
              "non-trivial = the oracle executed at least one candidate input on the reference interpreter; distinct by hash of (test, setUp, options)",
         partial="the theorem is a composition over named hypotheses (C01/C02/C11/C16/C04 are proved and tied by their own properties); the oracle can only exhibit violations among its candidates (z3 models of the guard + boundary set), it does not prove their absence",
     )
